@@ -153,6 +153,10 @@ class DnsRecordDnskey(ParsableBase, Serializable):
         for param_name in ['p', 'q', 'g', 'y']:
             if key_parser[param_name] <= 0:
                 raise InvalidValue(key_parser[param_name], cls, param_name)
+        for param_name in ['g', 'y']:
+            # generator and public value are elements of the group modulo the prime
+            if key_parser[param_name] >= key_parser['p']:
+                raise InvalidValue(key_parser[param_name], cls, param_name)
 
         return PublicKey.from_params(PublicKeyParamsDsa(
             prime=key_parser['p'],
